@@ -236,6 +236,28 @@ class GraphNode(HyperNode):
                 return inner_type
         return None
 
+    def get_input_types(self, param: str) -> list[type | None]:
+        """Expected types of EVERY inner consumer of an input parameter.
+
+        Several nodes of the inner graph (at any depth) may take the same
+        input; a value fed to it must satisfy all of them, not only the
+        first one listed.
+        """
+        original_param = self._resolve_original_input_name(param)
+        types: list[type | None] = []
+        for inner_node in self._graph.iter_nodes():
+            if original_param not in inner_node.inputs:
+                continue
+            if isinstance(inner_node, GraphNode):
+                inner_types = inner_node.get_input_types(original_param)
+            else:
+                inner_types = [inner_node.get_input_type(original_param)]
+            for inner_type in inner_types:
+                if inner_type is not None and self._map_over and param in self._map_over:
+                    inner_type = list[inner_type]
+                types.append(inner_type)
+        return types
+
     def _resolve_original_input_name(self, param: str) -> str:
         """Resolve a possibly-renamed input name back to the original.
 
